@@ -35,12 +35,17 @@ ID = "C17"
 LEVEL = "exploration"
 MONITORS = []
 ANCHORS = ["routines.py", "utils.py"]
-RULE = ("case = one minimize_oc run; block 'enum' = every layout of 1-3 variable signals with sizes up to the tier "
-        "bound x 6 objective classes (x 3 move limits in the thorough tier), block 'conv' = sum c/x with tight "
-        "stopping tolerances x layouts x move x bounds kind, block 'corner' = named hostile corners, block 'rand' = "
-        "all options drawn at random; other options are drawn from the plan generator (VERIF_SEED). distinct = "
-        "(objective, topology, bounds kind, number of signals, volume kind, move, history kind); non-trivial = at least "
-        "one design was produced")
+RULE = ("case = one minimize_oc run (12 % of the random cases: two consecutive runs, the second restarting from the design "
+        "the first left in the signals). Blocks: 'enum' = every layout of 1-3 variable signals with sizes up to the tier "
+        "bound (quick 3 plus [4],[5],[6]; thorough 6, i.e. all 258 layouts) x 6 objective classes (thorough: x 3 move "
+        "limits x 2 replicates); 'conv' = sum c/x with tolf=0, tight tolx and the iteration budget x layouts x move x "
+        "bounds kind; 'corner' = 32 named hostile corners x 8 (thorough 100) replicates; 'rand' = all options drawn at "
+        "random; 'big' = up to 5 signals of up to 12 entries. Options not fixed by the block (state kind: 1-D / Python "
+        "float / 0-d / 2-D / slices of one base signal, container, bounds kind, start on bounds, volume kind, history "
+        "kind, l1l2tol, l1init, l2init, verbosity, objective return type, scale) are drawn from the plan generator and "
+        "change with VERIF_SEED; the enumerated layout x objective (x move) grid does not. distinct = (objective, "
+        "topology, bounds kind, number of signals, volume kind, move, history kind, slicing, restart); non-trivial = at "
+        "least one design was produced")
 EXHAUSTIVE = {"quick": False, "thorough": False}
 ASSUMPTIONS = [
     "the initial design lies inside [xmin, xmax] (otherwise bounds and move limit cannot both hold) and is not identically zero",
@@ -61,7 +66,7 @@ ASSUMPTIONS = [
     "s = 1e-12*(1+|x_i|) (+ tolx*||x|| when the run ended by a stopping criterion). Derivation: a step that is not "
     "move-limited equals x*(lam_c) with |lam_c-lam*|<=tol because clipping is monotone and 1-Lipschitz. A run that ends "
     "by maxit while still move-limited is a violation only in block 'conv' whose budget is 3*ceil(max(xmax-xmin)/move)+30 "
-    "iterations (measured on the unchanged tree: at most 1.3*ceil(max|x0-x*|/move)+7 responses; histogram in counter conv_iterations_over_distance); a run stopped by tolf>0 right "
+    "iterations (measured on the unchanged tree: responses <= 1.5*ceil(max|x0-x*|/move)+10; histograms in counters conv_iterations_over_distance and conv_budget_used); a run stopped by tolf>0 right "
     "after a move-limited step is not judged",
     "objective values are non-zero and finite on the box; tolx > 0; 'consecutive evaluated designs differ' is asserted "
     "only while ||x|| > 0 in floating point (for ||x|| = 0 the relative step size of the code is undefined)",
@@ -74,6 +79,10 @@ FLOORS = {"quick": {"cases_held": 1200, "distinct_nontrivial": 1000, "designs_ch
                        "entries_bounds": 5000000, "steps_volume_judged": 360000, "oc_step_components_compared": 3700000,
                        "conv_runs_judged": 6000, "conv_components": 57000, "writeback_slices_compared": 1400000,
                        "steps_positive_gradient": 130000, "final_unrecorded_designs": 9000}}
+EXPLANATION = ("Steps whose target volume lies inside the move box but cannot be met by any multiplier in [l1init, l2init] "
+               "(counter steps_volume_family_unreachable; of these steps_volume_multiplier_outside_l1init_l2init have strictly "
+               "negative gradients and a positive design, i.e. only the multiplier range is in the way) are not judged for the "
+               "volume clause: DESIGN.md states 'lambda* inside [l1init, l2init]' as an assumption of this property.")
 TIMEOUT_CASE = 120
 TIMEOUT_SHARD = {"quick": 900, "thorough": 5400}
 
@@ -753,6 +762,10 @@ def run_case(case, ctx):
                         ctx.count("conv_iterations_over_distance:" + ("<=1" if over <= 1 else "2-3" if over <= 3 else "4-6" if over <= 6 else
                                                                       "7-15" if over <= 15 else "16-30" if over <= 30 else ">30"))
                         over_max = over if over_max is None else max(over_max, over)
+                        if hk == "conv":                  # how much of the iteration budget the unchanged code needs
+                            u_ = nresp / float(budget)
+                            ctx.count("conv_budget_used:" + ("<=25%" if u_ <= 0.25 else "<=50%" if u_ <= 0.5 else
+                                                             "<=75%" if u_ <= 0.75 else ">75%"))
             ctx.count("conv_" + conv)
         tot["responses"] += nresp
         tot["designs"] += len(D) - 1
